@@ -75,4 +75,14 @@ def column(a):
         r = fn(55, 500000.0, 6000000.0, 10.0, col)
     except Exception as ex:  # noqa
         return True, '%s with a 3x1 variance column raises %s: %s' % (fn.__name__, type(ex).__name__, ex)
-    return r[4] is None, '%s with a 3x1 column returned %r' % (fn.__name__, r[4])
+    if r[4] is None:
+        return True, '%s with a 3x1 column returned %r' % (fn.__name__, r[4])
+    msgs = []
+    for c in (col, np.array([[1e-4], [2e-4], [9e-4]]), np.array([[4e-4], [4e-4], [4e-4]])):
+        for args in ((55, 500000.0, 6000000.0, 10.0), (50, 250000.0, 7500000.0, 300.0)):
+            ra = fn(*args, c)
+            rb = fn(*args, np.diagflat(c))
+            if np.shape(ra[4]) != (3, 3) or np.max(np.abs(np.array(ra[4], dtype=float) - np.array(rb[4], dtype=float))) > 1e-12:
+                msgs.append('%s%r: variances %s as a 3x1 column give %s, as the diagonal matrix %s' % (
+                    fn.__name__, args, c.ravel().tolist(), np.array(ra[4]).round(9).tolist(), np.array(rb[4]).round(9).tolist()))
+    return bool(msgs), '; '.join(msgs[:2]) if msgs else '%s: 3x1 column equals the diagonal matrix' % fn.__name__
